@@ -12,7 +12,7 @@ A branch that never reads the multiplier compiles 3*f(x) <= t as f(x) <= t.
 import ast
 
 from rsx.dispatch import chain_tests
-from .common import (AnalysisError, Finding, RuleResult, ntext, walk_no_nested, const_str)
+from .common import (AnalysisError, Finding, RuleResult, ntext, walk_no_nested, const_str, expand_block_locals)
 from .r18_evaluators import mul_degrees
 
 RULE = 'R06'
@@ -207,7 +207,7 @@ def run(repo):
                    for s in body) and 'dvar' not in txt \
                     and 'affine' not in txt:
                 continue
-            uses = classify(prelude + body)
+            uses = classify(expand_block_locals(prelude + body, drop=True))      # temporaries of the branch are read through
             for letter in letters:
                 n += 1
                 probs = []
